@@ -26,25 +26,7 @@ class ParseTree:
             The derivation
 
         """
-        if len(self.sons) == 0 and isinstance(self.value, Variable):
-            return [[self.value], []]
-        if len(self.sons) == 0:
-            return [[self.value]]
-        res = [[self.value]]
-        start = []
-        for i, son in enumerate(self.sons):
-            end = [x.value for x in self.sons[i + 1:]]
-            derivation = []
-            derivations = son.get_leftmost_derivation()
-            if i != 0 and derivations and derivations[0]:
-                del derivations[0]
-            for derivation in derivations:
-                res.append(start + derivation + end)
-            if derivation:
-                start = start + derivation
-            else:
-                start.append(son.value)
-        return res
+        return self._get_derivation(True)
 
     def get_rightmost_derivation(self):
         """
@@ -56,21 +38,24 @@ class ParseTree:
             The derivation
 
         """
-        if len(self.sons) == 0 and isinstance(self.value, Variable):
-            return [[self.value], []]
-        if len(self.sons) == 0:
-            return [[self.value]]
+        return self._get_derivation(False)
+
+    def _get_derivation(self, leftmost):
+        """
+        Get a derivation where the leftmost (or rightmost) variable is
+        replaced at each step. A variable without sons derives epsilon.
+        """
+        current = [self]
         res = [[self.value]]
-        end = []
-        for i, son in enumerate(self.sons[::-1]):
-            start = [x.value for x in self.sons[:-1 - i]]
-            derivation = []
-            derivations = son.get_rightmost_derivation()
-            if i != 0 and derivations and derivations[0]:
-                del derivations[0]
-            for derivation in derivations:
-                res.append(start + derivation + end)
-            end = derivation + end
+        while True:
+            to_expand = [i for i, node in enumerate(current)
+                         if node.sons or isinstance(node.value, Variable)]
+            if not to_expand:
+                break
+            index = to_expand[0] if leftmost else to_expand[-1]
+            current = current[:index] + list(current[index].sons) + \
+                current[index + 1:]
+            res.append([node.value for node in current])
         return res
 
     def to_networkx(self):
